@@ -239,6 +239,8 @@ VARIANTS: Dict[str, List[Tuple[str, Any]]] = {
     "flat": list(_FLAT),
     "nested-first": [_NESTED] + list(_FLAT),
     "nested-later": [_FLAT[0], _NESTED] + list(_FLAT[1:]),
+    "can-only": list(_FLAT[:2]),   # as ISO 15765-2: no CP_DoIPLogicalEcuAddress
+    "doip-only": list(_FLAT[2:]),  # as ISO 13400-2: no CAN identifiers -> the bus is not CAN
 }
 
 
@@ -493,14 +495,18 @@ def says_canfd(inst: Dict[str, Any]) -> bool:
     return "CANFD" in effective_value(inst)
 
 
+NAN = "not-a-number"  # the effective value has no numeric content (malformed): no number may be returned
+
+
 def numeric(conv: str, text: str) -> Any:
-    if conv == "int":
-        return int(text)
-    if conv == "us":  # microseconds -> seconds
-        return int(text) / 1e6
+    if conv in ("int", "us"):
+        if not re.fullmatch(r"[0-9]+", text):
+            return NAN
+        return int(text) if conv == "int" else int(text) / 1e6  # microseconds -> seconds
     if conv == "txdl":
-        m = re.search(r"TX_DL=([0-9]+)", text)
-        assert m is not None
+        m = re.search(r"TX_DL *= *([0-9]+)", text)
+        if m is None:
+            return 8  # documented fallback of get_max_can_payload_size for a value of unexpected format
         return int(m.group(1))
     raise ValueError(conv)
 
@@ -531,14 +537,19 @@ def accessor_expectation(acc: str, inst: Optional[Dict[str, Any]], variant: str 
     return "must", numeric(conv, text)
 
 
-def can_fd_expectation(table: Optional[Dict[str, Any]], frame: Optional[Dict[str, Any]], baud: Optional[Dict[str, Any]]
-                       ) -> Dict[str, Any]:
+def can_fd_expectation(table: Optional[Dict[str, Any]], frame: Optional[Dict[str, Any]], baud: Optional[Dict[str, Any]],
+                       variant: str = "flat") -> Dict[str, Any]:
     """The CAN / CAN-FD gate for ONE protocol query.  table / frame / baud: the instances CP_UniqueRespIdTable,
     CP_CANFDTxMaxDataLength and CP_CANFDBaudrate resolve to FOR THAT QUERY (None: not defined).
     uses_can: the response-id table gives a request id (ours always has an effective one); uses_can_fd: additionally the
     frame-size parameter is defined and its effective value says CANFD; get_can_fd_baudrate: the number of the effective
     CP_CANFDBaudrate if CAN-FD is in use and the parameter is defined, else None."""
-    uses_can = table is not None
+    # (a response-id table without CP_CanPhysReqId -- the DoIP flavour -- means: not a CAN bus)
+    uses_can = table is not None and effective_subvalue(table, "CP_CanPhysReqId", variant) is not None
     uses_fd = uses_can and frame is not None and says_canfd(frame)
     rate = numeric("int", effective_value(baud)) if (uses_fd and baud is not None) else None
-    return {"uses_can": uses_can, "uses_can_fd": uses_fd, "get_can_fd_baudrate": rate}
+    out = {"uses_can": uses_can, "uses_can_fd": uses_fd, "get_can_fd_baudrate": rate}
+    if frame is None:
+        # documented convention: without the frame-size parameter a CAN bus carries 8 bytes, any other bus has no answer
+        out["get_max_can_payload_size"] = 8 if uses_can else None
+    return out
